@@ -28,7 +28,9 @@ MODULES = ['Alpaqa.Props.C03_Zerofpr', 'Alpaqa.Props.C05_Zerofpr', 'Alpaqa.Props
            'Alpaqa.Props.C19_Zerofpr']
 EXTRA_SOURCES = ['Alpaqa/Model/Zerofpr.lean', 'Alpaqa/Proofs/ZerofprInv.lean',
                  'Alpaqa/Proofs/ZerofprExample.lean',
-                 'Alpaqa/Proofs/ZerofprStep.lean',
+                 'Alpaqa/Proofs/ZerofprStep.lean', 'Alpaqa/Proofs/ZerofprFuel.lean',
+                 'Alpaqa/Proofs/ZerofprTicks.lean', 'Alpaqa/Proofs/ZerofprChain.lean',
+                 'Alpaqa/Proofs/ProxContract.lean',
                  'Alpaqa/Gen/C05.lean', 'Alpaqa/Gen/C06.lean', 'Driver/LoopZerofpr.lean']
 GEN_SCRIPTS = ['gen_c05.py', 'gen_c06.py']
 HARNESS_SOURCES = ['solvers_zerofpr_main.cpp', 'solvers_zerofpr.cpp']
